@@ -43,5 +43,26 @@ pub fn gen(seed: u64, idx: u64, _tier: Tier) -> Case {
 }
 
 pub fn run(case: &Case, known: &BTreeSet<String>) -> Outcome {
-    runner::run_history(case, &flags(), known)
+    let mut o = runner::run_history(case, &flags(), known);
+    // Second clause of the property: "every subsequently observable result is the same as if the
+    // call had not been made".  A divergence from the model counts for C10 only if it goes
+    // away when the refused calls are taken out of the history; otherwise it has nothing to do
+    // with refusals and is some other property's business.
+    let diverged = o.violations.iter().any(|v| !v.rule.starts_with("no-effect."));
+    if diverged && !o.refused_ops.is_empty() {
+        let mut c2 = case.clone();
+        c2.ops = case.ops.iter().enumerate().filter(|(i, _)| !o.refused_ops.contains(i)).map(|(_, op)| op.clone()).collect();
+        let o2 = runner::run_history(&c2, &flags(), known);
+        let rules2: Vec<&str> = o2.violations.iter().map(|v| v.rule.as_str()).collect();
+        let before = o.violations.len();
+        o.violations.retain(|v| v.rule.starts_with("no-effect.") || !rules2.contains(&v.rule.as_str()));
+        if o.violations.len() < before {
+            o.stats.probe("out_of_scope:divergence-persists-without-the-refused-calls");
+        }
+    } else if diverged {
+        // no refused call was involved at all
+        o.violations.retain(|v| v.rule.starts_with("no-effect."));
+        o.stats.probe("out_of_scope:divergence-without-any-refused-call");
+    }
+    o
 }
